@@ -22,10 +22,10 @@ from hsverif.core import Family, Result, repo_root
 PID = "C03"
 LEVEL = "exploration"
 RULE = (
-    "A case is a batch of 6 scenarios taken in turn from a seed-shuffled permutation of the shared catalogue of library-component scenarios, so the quick tier (ceil(N/6) batches) executes every one of the N ~ 300 scenarios (catalogue + determinism-specific ones: string-fed sketches, every cache eviction policy under string keys, default-clock TTL cache, a ParallelSimulation fan-in whose worker threads are slowed in real time, load-balancer strategies fed with key-less requests, CRDT stores with a late joiner) (all families: "
+    "A case is a batch of 12 scenarios taken in turn from a seed-shuffled permutation of the shared catalogue of library-component scenarios, so the quick tier (ceil(N/12) batches) executes every one of the N ~ 300 scenarios (catalogue + determinism-specific ones: string-fed sketches, every cache eviction policy under string keys, default-clock TTL cache, a ParallelSimulation fan-in whose worker threads are slowed in real time, load-balancer strategies fed with key-less requests, CRDT stores with a late joiner) (all families: "
     "sources, queues, servers, networks, consensus, storage, caches, sketches fed with str/bytes/tuple items, messaging, "
     "...; default or hostile parameters) with one seed each, executed in 4 fresh interpreters: PYTHONHASHSEED=0 in "
-    "catalogue order; =1 in reverse order; =12345 shuffled with every scenario run twice in a row; =random with "
+    "catalogue order; =1 in reverse order; =12345 shuffled, three of the scenarios run twice in a row; =random with "
     "time.time/monotonic/perf_counter replaced by offset+jumping clocks (the wall clock also stepping backwards). All executions of one (scenario, seed) must "
     "have equal digests = sha256(delivery log (time ns, event type, target) from the engine probe + public stats "
     "snapshot of every component, wall-clock fields removed). A mismatch is diagnosed by re-running that scenario alone "
@@ -58,8 +58,8 @@ def gen(rng: random.Random, tier: str) -> dict:
     random.Random(f"{getattr(rng, 'verif_seed', 0)}/c03-perm").shuffle(perm)
     idx = getattr(rng, "case_index", rng.randrange(10**6))
     items = []
-    for j in range(6):
-        n = perm[(idx * 6 + j) % len(perm)]
+    for j in range(BATCH):
+        n = perm[(idx * BATCH + j) % len(perm)]
         params = hostile_params(rng, tier) if rng.random() < 0.4 else {}
         items.append({"name": n, "seed": rng.randrange(1 << 20), "params": params})
     shuffled = list(range(len(items)))
@@ -92,7 +92,8 @@ def run(case: dict) -> Result:
     plans = [
         ("0", list(range(n)), None, "A"),
         ("1", list(reversed(range(n))), None, "B"),
-        ("12345", [i for i in case["shuffle"] for _ in (0, 1)], None, None),
+        # every scenario once in shuffled order, the first three of them twice in a row
+        ("12345", [i for k, i in enumerate(case["shuffle"]) for _ in ((0, 1) if k < 3 else (0,))], None, None),
         ("random", list(range(n)), case["time"], "A"),
     ]
     runs = []
@@ -243,9 +244,12 @@ FAMILIES = {
     "batches": Family("batches", gen, run, case_timeout=1200.0),
     "suite": Family("suite", gen_suite, run_suite, case_timeout=3400.0),
 }
+BATCH = 12
+
+
 def _quick_batches() -> int:
     try:
-        return -(-len(_names()) // 6)  # one pass over the whole catalogue
+        return -(-len(_names()) // BATCH)  # one pass over the whole catalogue
     except Exception:  # noqa: BLE001  (catalogue not importable at manifest-generation time)
         return 52
 
